@@ -1,5 +1,5 @@
-(* JSON documents with OrderedDict semantics for objects, and an ASCII-only renderer used to hand
-   documents to the harness (Python's json.loads reads it back). *)
+(* JSON documents with OrderedDict semantics for objects, and the ASCII renderer json.dumps(separators=(',', ':')) used to
+   hand documents to the harness (Python's json.loads reads it back; so does Model/JsonLoads.v, proved). *)
 From Coq Require Import List NArith ZArith Bool.
 From PV Require Import Base.Bytes Base.Lit.
 Import ListNotations.
@@ -32,11 +32,20 @@ Definition obj_has (l : list (text * json)) (k : text) : bool :=
 
 (* ---- rendering ---- *)
 Definition u4 (v : N) : text := L "\u" ++ hex_fixed hexdigL 4 v.
+(* json.dumps with ensure_ascii (ESCAPE_ASCII): the short escapes, \uXXXX for the other characters outside ' '..'~'
+   (a surrogate pair above the BMP) *)
+Definition short_esc (c : N) : option N :=
+  if c =? 34 then Some 34 else if c =? 92 then Some 92 else if c =? 8 then Some 98 else if c =? 12 then Some 102
+  else if c =? 10 then Some 110 else if c =? 13 then Some 114 else if c =? 9 then Some 116 else None.
 Definition esc_char (c : N) : text :=
-  if (c <? 32) || (c =? 34) || (c =? 92) || (127 <=? c) then
-    (if c <? 65536 then u4 c
-     else let v := c - 65536 in u4 (55296 + v / 1024) ++ u4 (56320 + v mod 1024))
-  else [c].
+  match short_esc c with
+  | Some l => [92; l]
+  | None =>
+      if (c <? 32) || (127 <=? c) then
+        (if c <? 65536 then u4 c
+         else let v := c - 65536 in u4 (55296 + v / 1024) ++ u4 (56320 + v mod 1024))
+      else [c]
+  end.
 Definition render_str (s : text) : text := [34] ++ flat_map esc_char s ++ [34].
 
 Definition render_z (z : Z) : text :=
